@@ -1789,6 +1789,9 @@ func genCodec(repo string) (string, error) {
 	// work/schemas.json next to coq/gen (-out is <verif>/coq/gen); one file per repository path
 	if of := flag.Lookup("out"); of != nil && of.Value.String() != "" {
 		wd := filepath.Join(of.Value.String(), "..", "..", "work")
+		if wf := flag.Lookup("work"); wf != nil && wf.Value.String() != "" {
+			wd = wf.Value.String()
+		}
 		name := "schemas.json"
 		if repo != "/repo" {
 			h := sha256.Sum256([]byte(repo))
